@@ -62,6 +62,16 @@ Definition mut_swallow (f : disk -> disk) (g : disk -> disk) : M unit :=
 
 Definition atomic (f : disk -> disk) : M unit := mut f (fun _ d => d).
 
+(* a READ of a file (the open for reading of state.json / patches_state.json): it changes nothing; the process
+   may die before it; under FailAt at its index it fails (EIO) and the caller sees "could not be read" *)
+Definition rd : M bool :=
+  fun pl c d =>
+    match pl with
+    | NoFault => (Ret true, S c, d)
+    | CrashAt k _ => if Nat.eqb c k then (Died, c, d) else (Ret true, S c, d)
+    | FailAt k _ => if Nat.eqb c k then (Ret false, S c, d) else (Ret true, S c, d)
+    end.
+
 (* not a system call: rewrites the model's representation of the disk without changing its content
    (used so that "delete an entry that is not there" yields literally the term the pure model builds) *)
 Definition touch (f : disk -> disk) : M unit := fun _ c d => (Ret tt, c, f d).
@@ -161,15 +171,19 @@ Definition add_patchM (s : pstate) (n : N) (b : bytes) (h : string) (sg : option
 
 (* UpdaterState::create_new_and_save: reset first; record the release only if the reset succeeded *)
 Definition create_newM (r : string) : M unit :=
+  rd ;;;      (* PatchManager::new reads patches_state.json; reset() does not look at what it read *)
   ok <- attempt (write_pj pempty ;;; rm_all) ;;
   if ok then ignore_err (write_sj {| rel := r; evq := [] |}) else ret tt.
 
 (* load_or_new_on_error: returns the in-memory serialized state and patch state *)
 Definition loadM (c : cfg) : M (sstate * pstate) :=
+  okS <- rd ;;                       (* UpdaterState::load: state.json; an unreadable file is "no state" *)
   d <- get ;;
-  match sj d with
-  | JOk s => if String.eqb (rel s) (c_rel c) then ret (s, load_p d)
-             else create_newM (c_rel c) ;;; ret ({| rel := c_rel c; evq := [] |}, pempty)
+  match (if okS then sj d else JGarbage) with
+  | JOk s =>
+      okP <- rd ;;                   (* PatchManager::new: patches_state.json, unwrap_or_default *)
+      if String.eqb (rel s) (c_rel c) then ret (s, if okP then load_p d else pempty)
+      else create_newM (c_rel c) ;;; ret ({| rel := c_rel c; evq := [] |}, pempty)
   | _ => create_newM (c_rel c) ;;; ret ({| rel := c_rel c; evq := [] |}, pempty)
   end.
 
